@@ -222,6 +222,7 @@ func (n *Node) IsConnected(next *Node) bool {
 func (n *Node) RotateNeighbors() {
 	for i, _ := range n.neigh {
 		j := rand.Intn(i + 1)
+		verifDraw("rotate", i+1, j)
 		n.neigh[i], n.neigh[j] = n.neigh[j], n.neigh[i]
 		n.br[i], n.br[j] = n.br[j], n.br[i]
 	}
